@@ -88,6 +88,8 @@ type walkSem struct {
 	caseTypes map[string]bool // types named in a type switch over a node in Walk or a function it calls
 	agg       map[string]*sliceAgg
 	aggOrder  []string
+	panicBad  map[*ast.CallExpr]int // calls that end the walk, reached in a state that is not the "no such node type" fallback
+	panicSeen map[*ast.CallExpr]int
 }
 
 // sliceAgg: how the iterations for one node type treat one slice-valued child field, over all path states (a state in
@@ -609,6 +611,33 @@ func (c *walkSem) PostAssign(e *Engine, st *State, lhs, rhs []ast.Expr, stmt ast
 func (c *walkSem) PreCall(e *Engine, st *State, call *ast.CallExpr, callee *types.Func) *State {
 	info := e.Info
 	out := st
+	if endsWalk(info, call) != "" && c.panicSeen != nil {
+		// the state in which the walk would end: fine only where no node type is left for the popped node (it is nil,
+		// or every type the traversal names has been excluded on this path)
+		c.panicSeen[call]++
+		fallback := false
+		if cur := st.Ext("cur"); cur != "" {
+			if f := st.Get(cur); f != nil {
+				if f.Nil == 1 {
+					fallback = true
+				}
+				if len(f.TyIn) == 0 && len(c.caseTypes) > 0 {
+					all := true
+					for t := range c.caseTypes {
+						if !hasStr(f.TyOut, t) {
+							all = false
+						}
+					}
+					if all {
+						fallback = true
+					}
+				}
+			}
+		}
+		if !fallback {
+			c.panicBad[call]++
+		}
+	}
 	// the visitor
 	if o := objOf(info, e.ResolveExpr(call.Fun)); o != nil && o == c.visitObj {
 		out = out.WithExt("visits", bump(out.Ext("visits")))
@@ -938,7 +967,7 @@ func ruleC11Sem(p *Program, r *Run) {
 	}
 	c := &walkSem{p: p, fd: fd, fn: fn, nodeIface: p.Iface(pkg, "Node"), nodeT: p.Named(pkg, "Node"),
 		rootObj: info.Defs[params[0].Names[0]], visitObj: info.Defs[params[1].Names[0]],
-		optional: p.optionalNodeFields(), seen: map[string]bool{}, need: map[string]string{}, structs: map[string]types.Type{}, caseTypes: map[string]bool{}, agg: map[string]*sliceAgg{}}
+		optional: p.optionalForWalk(), seen: map[string]bool{}, need: map[string]string{}, structs: map[string]types.Type{}, caseTypes: map[string]bool{}, agg: map[string]*sliceAgg{}}
 	for _, t := range p.Implementers(c.nodeIface) {
 		c.structs[TypeStr(t)] = t
 	}
@@ -981,6 +1010,69 @@ func ruleC11Sem(p *Program, r *Run) {
 			return true
 		})
 	}
+	// the traversal is not abandoned: a panic (or an exit of the process) anywhere in the traversal code ends it with
+	// nodes still on the worklist. The one place that cannot be reached is the fallback for a node of no known type -
+	// the default arm (or `case nil`) of a type switch over the node, or any place that the path states reach only
+	// with every node type excluded (C11/handled decides that no node gets there). Judged after the interpretation.
+	type endSite struct {
+		call      *ast.CallExpr
+		what      string
+		where     string
+		inDefault bool
+	}
+	var endSites []endSite
+	for _, root := range regions {
+		ast.Inspect(root, func(nd ast.Node) bool {
+			call, ok := nd.(*ast.CallExpr)
+			if !ok {
+				return true
+			}
+			what := endsWalk(info, call)
+			if what == "" {
+				return true
+			}
+			inDefault := false
+			p.ancestors(call, p.FuncAt(call.Pos()), func(anc, _ ast.Node) bool {
+				cc, isCC := anc.(*ast.CaseClause)
+				if !isCC {
+					return true
+				}
+				fallbackArm := cc.List == nil
+				if len(cc.List) == 1 && isNilIdent(info, cc.List[0]) {
+					fallbackArm = true
+				}
+				if !fallbackArm {
+					return true
+				}
+				if body, isBody := p.Parent(cc).(*ast.BlockStmt); isBody {
+					if ts, isTS := p.Parent(body).(*ast.TypeSwitchStmt); isTS {
+						if t := info.TypeOf(typeSwitchOf(info, ts).Tag); t != nil && (types.Implements(t, c.nodeIface) || types.Identical(t, c.nodeT)) {
+							inDefault = true
+						}
+					}
+				}
+				return true
+			})
+			where := "parser.Walk"
+			if h := p.FuncAt(call.Pos()); h != nil {
+				where = FuncName(pkg, h)
+			}
+			endSites = append(endSites, endSite{call, what, where, inDefault})
+			return true
+		})
+	}
+	c.panicBad, c.panicSeen = map[*ast.CallExpr]int{}, map[*ast.CallExpr]int{}
+	defer func() {
+		for i, es := range endSites {
+			ok := es.inDefault || (c.panicSeen[es.call] > 0 && c.panicBad[es.call] == 0)
+			how := "in the fallback arm of the type switch over the node (no node type reaches it, C11/handled)"
+			if !es.inDefault {
+				how = "reached only in path states in which every node type is excluded for the popped node"
+			}
+			r.Check(ok, "C11/complete", fmt.Sprintf("%s %s #%d does not abandon the traversal", es.where, es.what, i+1), p.Pos(es.call.Pos()), how,
+				"the traversal code calls "+es.what+" where a node of a known type (or no node at all) can be at hand: the walk ends there and the nodes still on the worklist are never visited")
+		}
+	}()
 	// the traversal keeps nothing between or across calls: a visit function may itself call Walk, and two traversals
 	// may run at once, so every package-level variable the traversal code touches must be read-only
 	{
@@ -1121,4 +1213,18 @@ func ruleC11Sem(p *Program, r *Run) {
 	r.Floor("C11/once", 26)
 	r.Floor("C11/nil", 3)
 	ruleC11Use(p, r)
+}
+
+// endsWalk: the call never returns to the traversal (panic, exit of the process or of the goroutine).
+func endsWalk(info *types.Info, call *ast.CallExpr) string {
+	if IsBuiltinCall(info, call, "panic") {
+		return "panic"
+	}
+	if f := Callee(info, call); f != nil {
+		switch f.FullName() {
+		case "os.Exit", "runtime.Goexit", "log.Fatal", "log.Fatalf", "log.Fatalln", "log.Panic", "log.Panicf", "log.Panicln":
+			return f.FullName()
+		}
+	}
+	return ""
 }
